@@ -1,12 +1,13 @@
 /-
-  C10 line-protocol driver: the C10 model is the C09 model (checked accesses, partial conversions) (requests: see Vita/C09/Proto.lean; same lines as harness/c09_read.cc).
+  C10 line-protocol driver: the C10 model is the C09 model (checked accesses, partial conversions); requests: see
+  Vita/C09/Proto.lean (same lines as harness/c09_read.cc) and Vita/C10/Proto.lean (`valid`, harness/c10_scale.cc).
 -/
-import Vita.C09.Proto
+import Vita.C10.Proto
 
 partial def loop (h : IO.FS.Stream) (out : IO.FS.Stream) : IO Unit := do
   let line ← h.getLine
   if line.isEmpty then return ()
-  out.putStrLn (Vita.C09.Proto.answer line)
+  out.putStrLn (Vita.C10.Proto.answer line)
   loop h out
 
 def main : IO Unit := do
